@@ -112,7 +112,10 @@ def check_cnt(case):
     Rs, Gs = nf.nucleationBarrier(float(dGs[j]), prec)
     if not (np.isclose(float(Rs), Rc[j], rtol=1e-12, atol=0, equal_nan=True) and np.isclose(float(Gs), Gc[j], rtol=1e-12, atol=0, equal_nan=True)):
         out.fail("scalar_vs_array", "nucleationBarrier scalar call gives (%r,%r), element %d of the array call (%r,%r)" % (float(Rs), float(Gs), j, Rc[j], Gc[j]))
-    # incubation factor in [0,1] and rising with time
+    # incubation factor in [0,1] and rising with time; the factor is J(t) over the documented steady-state product Z beta exp(-G*/kT)
+    from kawin.Constants import BOLTZMANN_CONSTANT
+    with np.errstate(all="ignore"):
+        Jprod = np.where(Gc != 0, Z * beta * np.exp(-Gc / (BOLTZMANN_CONSTANT * Tarr)), 0.0)
     ts = sorted(case["times"])
     prev = None
     for t in ts:
@@ -120,8 +123,8 @@ def check_cnt(case):
         for i in range(len(dGs)):
             if not (np.isfinite(Jt[i]) and np.isfinite(Jss[i])) or Jss[i] < 0:
                 continue
-            if Jt[i] < 0 or Jt[i] > Jss[i] * (1 + 1e-12):
-                out.fail("incubation_factor_range", "J(t=%r)=%r outside [0, J_ss=%r]" % (t, Jt[i], Jss[i]))
+            if Jt[i] < 0 or Jt[i] > Jss[i] * (1 + 1e-12) or (np.isfinite(Jprod[i]) and Jprod[i] >= 0 and Jt[i] > Jprod[i] * (1 + 1e-9)):
+                out.fail("incubation_factor_range", "J(t=%r)=%r outside [0, J_ss=%r] (Z beta exp(-G*/kT) = %r)" % (t, Jt[i], Jss[i], Jprod[i]))
             if prev is not None and Jt[i] < prev[i] * (1 - 1e-12):
                 out.fail("incubation_not_monotone", "J decreases with time: %r -> %r at t=%r" % (prev[i], Jt[i], t))
         prev = Jt
